@@ -189,6 +189,22 @@ func c06Record(c *Ctx, idx int, build func() *dst.File, filled bool) []obj {
 	p1, m1 := printFile(f)
 	p2, m2 := printFile(cl)
 	printedSame := m1 == m2 && p1 == p2
+	if printedSame && m1 == "" {
+		// the original has been printed by now: the usual reason to clone is to print a tree a second time,
+		// through a Restorer that has already restored a file (its file set is not empty any more)
+		var b3 bytes.Buffer
+		var e3 error
+		m3 := guard(func() {
+			r := decorator.NewRestorer()
+			r.Fset = token.NewFileSet()
+			r.Fset.AddFile("printed-before.go", -1, 2345)
+			e3 = r.Fprint(&b3, dst.Clone(f).(*dst.File))
+		})
+		if m3 != "" || e3 != nil || b3.String() != p1 {
+			printedSame = false
+			c.Note(fmt.Sprintf("fragment %d: a clone printed by a restorer whose file set holds a file: %s %v", idx, m3, e3))
+		}
+	}
 	// mutate the clone, look at the original
 	mutateAll(cl)
 	origAfter, _ := ExportDst(f)
